@@ -63,17 +63,23 @@ structure SameCtl (pc pc' : PC) : Prop extends Keep pc pc' where
   queue : pc'.queue = pc.queue
   updFlag : pc'.updFlag = pc.updFlag
 
-theorem sameCtl_commitDesc (pc : PC) (isLocal : Bool) (d : Desc) : SameCtl pc (commitDesc pc isLocal d) := by
+theorem sameCtl_commitDesc (pc : PC) (isLocal : Bool) (ty : Ty) (d : Desc) :
+    SameCtl pc (commitDesc pc isLocal ty d) := by
   unfold commitDesc
   split <;> exact ⟨⟨rfl, rfl, rfl, rfl, rfl⟩, rfl, rfl⟩
 
+/-- only a (final) answer leads to stable -/
+theorem checkNext_stable {cur : Sig} {isLocal : Bool} {ty : Ty} (h : checkNext cur isLocal ty = some .stable) :
+    ty = .answer := by
+  cases cur <;> cases isLocal <;> cases ty <;> simp [checkNext] at h <;> rfl
+
 /-- `setDescription` either keeps the bookkeeping (next state not stable) or records a completed exchange -/
-theorem setDescription_cases {pc pc1 : PC} {isLocal : Bool} {d : Desc}
-    (h : setDescription pc isLocal d = some pc1) :
+theorem setDescription_cases {pc pc1 : PC} {isLocal : Bool} {d : Desc} {prov : Bool}
+    (h : setDescription pc isLocal d prov = some pc1) :
     (pc1.isNN = pc.isNN ∧ pc1.events = pc.events ∧ pc1.fired = pc.fired ∧ pc1.closed = pc.closed ∧
         pc1.queue = pc.queue ∧ pc1.updFlag = pc.updFlag ∧ pc1.sig ≠ .stable ∧ pc.closed = false)
     ∨ (pc1.sig = .stable ∧ pc1.isNN = false ∧ pc1.events = pc.events ++ [.stable] ∧ pc1.fired = pc.fired
-        ∧ pc1.closed = false ∧ (pc1.updFlag = true ∨ QOp.nn ∈ pc1.queue)) := by
+        ∧ pc1.closed = false ∧ (pc1.updFlag = true ∨ QOp.nn ∈ pc1.queue) ∧ descTy d prov = .answer) := by
   unfold setDescription at h
   by_cases hcl : pc.closed = true
   · simp [hcl] at h
@@ -86,32 +92,33 @@ theorem setDescription_cases {pc pc1 : PC} {isLocal : Bool} {d : Desc}
   split at h
   · simp at h
   rename_i next hnext
-  have hc := sameCtl_commitDesc pc isLocal d
+  have hc := sameCtl_commitDesc pc isLocal (descTy d prov) d
   simp only at h
   split at h
   · rename_i hst
+    have hst' : next = Sig.stable := by simpa using hst
     injection h with h
     subst h
     right
-    refine ⟨?_, rfl, ?_, ?_, ?_, ?_⟩
-    · show next = Sig.stable
-      simpa using hst
-    · show (commitDesc pc isLocal d).events ++ [Ev.stable] = _
+    refine ⟨hst', rfl, ?_, ?_, ?_, ?_, ?_⟩
+    · show (commitDesc pc isLocal (descTy d prov) d).events ++ [Ev.stable] = _
       rw [hc.events]
     · exact hc.fired
-    · show (commitDesc pc isLocal d).closed = false
+    · show (commitDesc pc isLocal (descTy d prov) d).closed = false
       rw [hc.closed, hcl']
     · show (onNN _).updFlag = true ∨ QOp.nn ∈ (onNN _).queue
       simp only [onNN]
-      by_cases hq : (commitDesc pc isLocal d).queue.isEmpty = true <;> simp [hq]
+      by_cases hq : (commitDesc pc isLocal (descTy d prov) d).queue.isEmpty = true <;> simp [hq]
+    · rw [hst'] at hnext
+      exact checkNext_stable hnext
   · rename_i hst
     injection h with h
     subst h
     left
     exact ⟨hc.isNN, hc.events, hc.fired, hc.closed, hc.queue, hc.updFlag, by simpa using hst, hcl'⟩
 
-theorem eff_of_setDescription {pc pc1 : PC} {isLocal : Bool} {d : Desc}
-    (h : setDescription pc isLocal d = some pc1) : Eff pc pc1 := by
+theorem eff_of_setDescription {pc pc1 : PC} {isLocal : Bool} {d : Desc} {prov : Bool}
+    (h : setDescription pc isLocal d prov = some pc1) : Eff pc pc1 := by
   rcases setDescription_cases h with ⟨h1, h2, h3, _⟩ | ⟨_, h2, h3, h4, _, _⟩
   · exact .keep h1 h2 h3
   · exact .stable h2 h3 h4
@@ -165,7 +172,7 @@ theorem keep_createAnswer (pc : PC) : Keep pc (createAnswer pc).1 := by
       · exact Keep.refl _
       · split <;> exact ⟨rfl, rfl, rfl, rfl, rfl⟩
 
-theorem eff_setLocal (pc : PC) (d : Desc) : Eff pc (setLocal pc d).1 := by
+theorem eff_setLocal (pc : PC) (d : Desc) (prov : Bool) : Eff pc (setLocal pc d prov).1 := by
   unfold setLocal
   split
   · exact .ofKeep (Keep.refl _)
@@ -177,7 +184,7 @@ theorem eff_setLocal (pc : PC) (d : Desc) : Eff pc (setLocal pc d).1 := by
       · exact eff_trans_keep this ⟨rfl, rfl, rfl, rfl, rfl⟩
       · split <;> exact eff_trans_keep this ⟨rfl, rfl, rfl, rfl, rfl⟩
 
-theorem eff_setRemote (pc : PC) (d : Desc) : Eff pc (setRemote pc d).1 := by
+theorem eff_setRemote (pc : PC) (d : Desc) (prov : Bool) : Eff pc (setRemote pc d prov).1 := by
   unfold setRemote
   split
   · exact .ofKeep (Keep.refl _)
@@ -215,8 +222,8 @@ theorem eff_api (pc : PC) (op : Api) : Eff pc (api pc op).1 := by
   | createDataChannel f => exact .ofKeep (keep_createDataChannel pc f)
   | createOffer => exact .ofKeep (keep_createOffer pc)
   | createAnswer => exact .ofKeep (keep_createAnswer pc)
-  | setLocal d => exact eff_setLocal pc d
-  | setRemote d => exact eff_setRemote pc d
+  | setLocal d prov => exact eff_setLocal pc d prov
+  | setRemote d prov => exact eff_setRemote pc d prov
   | close => exact eff_close pc
 
 theorem keep_runTail (pc : PC) (t : Tail) : Keep pc (runTail pc t).1 := by
@@ -619,16 +626,17 @@ theorem K_createAnswer {pc : PC} (hK : K pc) : K (createAnswer pc).1 := by
     · split
       · exact hK
       · rename_i hsig
-        have hs : pc.sig = .haveRemoteOffer := by simpa using hsig
+        have hs : pc.sig ≠ .stable := by
+          intro h; rw [h] at hsig; simp at hsig
         split
         · exact hK
         · exact K_of_not_stable (by
             show pc.sig ≠ .stable
-            rw [hs]; decide)
+            exact hs)
 
-theorem K_of_setDescription {pc pc1 : PC} {isLocal : Bool} {d : Desc}
-    (h : setDescription pc isLocal d = some pc1) : pc1.sig ≠ .stable ∨ pending pc1 := by
-  rcases setDescription_cases h with ⟨_, _, _, _, _, _, h7, _⟩ | ⟨_, _, _, _, _, h6⟩
+theorem K_of_setDescription {pc pc1 : PC} {isLocal : Bool} {d : Desc} {prov : Bool}
+    (h : setDescription pc isLocal d prov = some pc1) : pc1.sig ≠ .stable ∨ pending pc1 := by
+  rcases setDescription_cases h with ⟨_, _, _, _, _, _, h7, _⟩ | ⟨_, _, _, _, _, h6, _⟩
   · exact Or.inl h7
   · exact Or.inr h6
 
@@ -639,7 +647,7 @@ theorem K_of_either {pc : PC} (h : pc.sig ≠ .stable ∨ pending pc) : K pc := 
   · exact K_of_not_stable h
   · exact K_of_pending h
 
-theorem K_setLocal {pc : PC} (hK : K pc) (d : Desc) : K (setLocal pc d).1 := by
+theorem K_setLocal {pc : PC} (hK : K pc) (d : Desc) (prov : Bool) : K (setLocal pc d prov).1 := by
   unfold setLocal
   split
   · exact hK
@@ -654,7 +662,7 @@ theorem K_setLocal {pc : PC} (hK : K pc) (d : Desc) : K (setLocal pc d).1 := by
 theorem sig_applyRemoteOffer (n : Nat) (secs : List Sec) (used : List Nat) (pc : PC) :
     (applyRemoteOffer n secs used pc).sig = pc.sig := (keep_applyRemoteOffer n secs used pc).sig
 
-theorem K_setRemote {pc : PC} (hK : K pc) (d : Desc) : K (setRemote pc d).1 := by
+theorem K_setRemote {pc : PC} (hK : K pc) (d : Desc) (prov : Bool) : K (setRemote pc d prov).1 := by
   unfold setRemote
   split
   · exact hK
@@ -665,33 +673,12 @@ theorem K_setRemote {pc : PC} (hK : K pc) (d : Desc) : K (setRemote pc d).1 := b
     · exact hK
     · rename_i pc1 h
       split
-      · -- an offer: the state is have-remote-offer whatever happens next
-        rename_i hoff
+      · -- an offer or a provisional answer: the next state is not stable whatever happens next
+        rename_i hty
         have hs : pc1.sig ≠ .stable := by
-          rcases setDescription_cases h with ⟨_, _, _, _, _, _, h7, _⟩ | ⟨h1, _⟩
+          rcases setDescription_cases h with ⟨_, _, _, _, _, _, h7, _⟩ | ⟨_, _, _, _, _, _, h7⟩
           · exact h7
-          · exfalso
-            unfold setDescription at h
-            split at h
-            · simp at h
-            split at h
-            · simp at h
-            split at h
-            · simp at h
-            split at h
-            · simp at h
-            rename_i next hnext
-            simp only [hoff] at hnext
-            have : next ≠ .stable := by
-              cases hsg : pc.sig <;> simp [checkNext, hsg] at hnext <;> simp [← hnext]
-            simp only at h
-            split at h
-            · rename_i hst
-              exact this (by simpa using hst)
-            · rename_i hst
-              injection h with h
-              subst h
-              exact this h1
+          · rw [h7] at hty; simp at hty
         split
         · exact K_of_not_stable (by rw [sig_applyRemoteOffer]; exact hs)
         · exact K_of_not_stable (by
@@ -721,8 +708,8 @@ theorem K_api {pc : PC} (hK : K pc) (op : Api) : K (api pc op).1 := by
   | createDataChannel f => exact K_createDataChannel hK f
   | createOffer => exact K_createOffer hK
   | createAnswer => exact K_createAnswer hK
-  | setLocal d => exact K_setLocal hK d
-  | setRemote d => exact K_setRemote hK d
+  | setLocal d prov => exact K_setLocal hK d prov
+  | setRemote d prov => exact K_setRemote hK d prov
   | close => exact K_close pc hK
 
 /-- the tail of SetLocal/SetRemoteDescription(answer) changes current directions and `sent` marks and
